@@ -140,17 +140,17 @@ def sprinkle_cc(rec, rng):
     return rec
 
 
-def cc_case(rng):
+def cc_case(rng, boolean=False):
     """an option group of the configurator (3-5 alternatives, usually with a default) used as an ordinary proposition inside a small model"""
     ids = rng.sample("abcdefgh", rng.randint(3, 5))
-    neg = rng.random() < 0.3
+    neg = rng.random() < 0.3 and not boolean
     args = [{"k": "var", "id": i, "b": [0, 1]} for i in ids]
     if neg:
         args[rng.randrange(len(args))]["b"] = list(rng.choice([(-1, 1), (-2, 0), (-1, 0)]))     # an alternative that can be negative: no default then
     grp = {"k": rng.choice(["ccXor", "ccXor", "ccAny"]), "id": rng.choice([None, "G"]), "args": args}
     if not neg and rng.random() < 0.85:
         grp["default"] = [rng.choice(ids)]
-    other = {"k": "var", "id": rng.choice("xyz"), "b": list(rng.choice([(0, 1), (0, 1), (-1, 2)]))}
+    other = {"k": "var", "id": rng.choice("xyz"), "b": [0, 1] if boolean else list(rng.choice([(0, 1), (0, 1), (-1, 2)]))}
     w = rng.choice(["bare", "Not", "ImplyC", "ImplyQ", "All", "Any", "AtLeast"])
     if w == "bare":
         return grp
